@@ -933,6 +933,18 @@ theorem wired_generation_predicate_stale_nodeslo :
     (lookupA (wrun .none hxD hxParse (QWorld.init hxD) ss).w.slos 1).map (fun spec => get (spec.getD 3 []) [27])
       = some none := by decide
 
+/-- the same on the NODE watch: a predicate that compares generations drops the relabelling of a node (labels are
+    metadata: the generation stays): node 1 moves from la=x to la=y and keeps the la=x entry's 160 with nothing
+    queued (without the predicate the relabelling is queued, and its reconcile removes the 160). -/
+theorem wired_node_generation_predicate_stale_nodeslo :
+    let ss : List QStep := [.ev (.cmCreate [0, 1]), .ev (.nodeAdd 1 [(1, 1)]), .reco 1, .ev (.nodeUpdate 1 [(1, 2)])]
+    (wrun .nodeGenerationChanged hxD hxParse (QWorld.init hxD) ss).q = [] ∧
+    lookupA (wrun .nodeGenerationChanged hxD hxParse (QWorld.init hxD) ss).w.nodes 1 = some [(1, 2)] ∧
+    (lookupA (wrun .nodeGenerationChanged hxD hxParse (QWorld.init hxD) ss).w.slos 1).map (fun spec => get (spec.getD 3 []) [27])
+      = some (some 160) ∧
+    (lookupA (wrun .none hxD hxParse (QWorld.init hxD) (ss ++ [.reco 1])).w.slos 1).map (fun spec => get (spec.getD 3 []) [27])
+      = some none := by decide
+
 /-! ## ORDER of the node entries (profile names are not part of the model: selection cannot depend on them) -/
 
 /-- re-ordering a section's entries (e.g. sorting them by profile name) cannot change what a node gets as long as at most
